@@ -63,6 +63,26 @@ def oblivious(ctx, pw, cred):
     ctx.expect(rr.b(1)[:L.Noe] != evs[0], "another credential identifier evaluates under another key")
 
 
+def overlong(ctx, n):
+    """passwords beyond the OPRF's 2-byte length prefix are refused (model and code agree where); were they accepted,
+    two of them sharing their first 65535 bytes (or their digest) must not get the same masking key"""
+    ctx.nontrivial = True
+    L = ctx.L
+    base = bytes((i * 13 + 5) % 251 for i in range(65535))
+    pws = [base + b"A" * (n - 65535), base + b"B" * (n - 65535), base]
+    f0 = honest_flow(ctx, pws[2], b"alice", registration_only=True, count=True)
+    ctx.expect(f0.ok, "a 65535-byte password registers")
+    mks = []
+    for p in pws[:2]:
+        g = honest_flow(ctx, p, b"alice", setup=f0.setup, registration_only=True, count=True, stop_on_error=False)
+        ctx.expect(not g.ok, "a %d-byte password is refused" % len(p))
+        if g.upload is not None:
+            mks.append(g.upload[L.Npk:L.Npk + L.Nh])
+    if f0.ok and mks:
+        allm = mks + [f0.upload[L.Npk:L.Npk + L.Nh]]
+        ctx.expect(len(set(allm)) == len(allm), "passwords sharing their first 65535 bytes get unrelated masking keys")
+
+
 def restored(ctx, pw, cred):
     """the evaluation is a function of the seed: a setup saved and restored (native bytes, serde) evaluates exactly
     like the live one it was saved from"""
@@ -90,5 +110,6 @@ def cases(tier, seed):
     for si, s in enumerate(suites_for(tier, seed)):
         for k, (pw, cred) in enumerate(shapes if tier == "thorough" else shapes[:3]):
             out.append(dict(cross=["srv_reg_start", "login_finish", "srv_login_finish"], cross_limit=80, script=oblivious, suite=s, seed=seed * 10000 + si * 10 + k, mode="pattern", params=dict(pw=pw, cred=cred)))
+        out.append(dict(script=overlong, suite=s, seed=seed * 10000 + si * 10 + 8, mode="pattern+err", params=dict(n=65536 + (si % 3) * 1000)))
         out.append(dict(script=restored, suite=s, seed=seed * 10000 + si * 10 + 9, mode="pattern", params=dict(pw=b"pw", cred=b"record/" * (si + 1))))
     return out
